@@ -745,8 +745,12 @@ impl ExactSizeIterator for BitVectorIntoIter {
 impl Iterator for BitVectorIntoIter {
     type Item = bool;
     fn next(&mut self) -> Option<Self::Item> {
-        self.i += 1;
-        self.bv.get(self.i - 1)
+        if self.i < self.bv.n_bits {
+            self.i += 1;
+            self.bv.get(self.i - 1)
+        } else {
+            None
+        }
     }
 }
 
